@@ -46,7 +46,7 @@ def parseRaise (s : String) : Option (Option (Nat × Exc)) :=
   | _ => none
 
 def showRows (v : View) : String :=
-  String.join ((List.range 12).filterMap fun k => (v k).map fun x => " " ++ toString k ++ "=" ++ toString x)
+  String.join ((List.range 200).filterMap fun k => (v k).map fun x => " " ++ toString k ++ "=" ++ toString x)
 
 def showCRef : CRef → String
   | .base c => "b" ++ toString c
